@@ -347,17 +347,31 @@ pub fn build_arg(s: &ArgSpec) -> Arg {
     if let Some(l) = &s.long {
         a = a.long(l.clone());
     }
-    for x in &s.aliases {
-        a = a.alias(x.clone());
+    // every list goes through both declaration routes: the first entry through the singular setter,
+    // the others through the plural one (the two must add up)
+    if let Some((f, rest)) = s.aliases.split_first() {
+        a = a.alias(f.clone());
+        if !rest.is_empty() {
+            a = a.aliases(rest.iter().cloned());
+        }
     }
-    for x in &s.visible_aliases {
-        a = a.visible_alias(x.clone());
+    if let Some((f, rest)) = s.visible_aliases.split_first() {
+        a = a.visible_alias(f.clone());
+        if !rest.is_empty() {
+            a = a.visible_aliases(rest.iter().cloned());
+        }
     }
-    for x in &s.short_aliases {
-        a = a.short_alias(*x);
+    if let Some((f, rest)) = s.short_aliases.split_first() {
+        a = a.short_alias(*f);
+        if !rest.is_empty() {
+            a = a.short_aliases(rest.iter().copied());
+        }
     }
-    for x in &s.visible_short_aliases {
-        a = a.visible_short_alias(*x);
+    if let Some((f, rest)) = s.visible_short_aliases.split_first() {
+        a = a.visible_short_alias(*f);
+        if !rest.is_empty() {
+            a = a.visible_short_aliases(rest.iter().copied());
+        }
     }
     if let Some(i) = s.index {
         a = a.index(i);
@@ -466,33 +480,49 @@ pub fn build_arg(s: &ArgSpec) -> Arg {
             };
         }
     }
-    if !s.default.is_empty() {
-        a = a.default_values(s.default.clone());
+    match s.default.len() {
+        0 => {}
+        1 => a = a.default_value(s.default[0].clone()),
+        _ => a = a.default_values(s.default.clone()),
     }
-    for d in &s.default_ifs {
-        let pred = match &d.equals {
-            None => ArgPredicate::IsPresent,
-            Some(v) => ArgPredicate::Equals(ClapOsStr::from(v.clone())),
-        };
+    let pred_of = |d: &DefaultIf| match &d.equals {
+        None => ArgPredicate::IsPresent,
+        Some(v) => ArgPredicate::Equals(ClapOsStr::from(v.clone())),
+    };
+    if let Some((d, rest)) = s.default_ifs.split_first() {
         a = match &d.value {
-            Some(v) => a.default_value_if(d.other.clone(), pred, ClapOsStr::from(v.clone())),
-            None => a.default_value_if(d.other.clone(), pred, clap::builder::Resettable::Reset),
+            Some(v) => a.default_value_if(d.other.clone(), pred_of(d), ClapOsStr::from(v.clone())),
+            None => a.default_value_if(d.other.clone(), pred_of(d), clap::builder::Resettable::Reset),
         };
+        if !rest.is_empty() {
+            a = a.default_value_ifs(rest.iter().map(|d| (d.other.clone(), pred_of(d), match &d.value {
+                Some(v) => clap::builder::Resettable::Value(ClapOsStr::from(v.clone())),
+                None => clap::builder::Resettable::Reset,
+            })));
+        }
     }
-    if !s.default_missing.is_empty() {
-        a = a.default_missing_values(s.default_missing.clone());
+    match s.default_missing.len() {
+        0 => {}
+        1 => a = a.default_missing_value(s.default_missing[0].clone()),
+        _ => a = a.default_missing_values(s.default_missing.clone()),
     }
     if let Some(e) = &s.env {
         a = a.env(e.clone());
     }
-    for x in &s.conflicts {
-        a = a.conflicts_with(x.clone());
+    if let Some((f, rest)) = s.conflicts.split_first() {
+        a = a.conflicts_with(f.clone());
+        if !rest.is_empty() {
+            a = a.conflicts_with_all(rest.iter().cloned());
+        }
     }
     for x in &s.requires {
         a = a.requires(x.clone());
     }
-    for (v, id) in &s.requires_ifs {
+    if let Some(((v, id), rest)) = s.requires_ifs.split_first() {
         a = a.requires_if(v.clone(), id.clone());
+        if !rest.is_empty() {
+            a = a.requires_ifs(rest.iter().map(|(v, id)| (v.clone(), id.clone())));
+        }
     }
     // one relation goes through `overrides_with`; a self-override alone, and every further relation,
     // through `overrides_with_all` (both setters add to what is already stored)
@@ -522,8 +552,11 @@ pub fn build_arg(s: &ArgSpec) -> Arg {
     if !s.required_unless_all.is_empty() {
         a = a.required_unless_present_all(s.required_unless_all.clone());
     }
-    for g in &s.groups {
-        a = a.group(g.clone());
+    if let Some((f, rest)) = s.groups.split_first() {
+        a = a.group(f.clone());
+        if !rest.is_empty() {
+            a = a.groups(rest.iter().cloned());
+        }
     }
     if let Some(h) = &s.help {
         a = a.help(h.clone());
@@ -583,11 +616,18 @@ pub fn build_group(g: &GroupSpec) -> ArgGroup {
 pub fn build(s: &CmdSpec) -> Command {
     let mut c = Command::new(s.name.clone());
     c = c.color(clap::ColorChoice::Never);
-    for x in &s.aliases {
-        c = c.alias(x.clone());
+    // (first entry through the singular setter, the others through the plural one)
+    if let Some((f, rest)) = s.aliases.split_first() {
+        c = c.alias(f.clone());
+        if !rest.is_empty() {
+            c = c.aliases(rest.iter().cloned());
+        }
     }
-    for x in &s.visible_aliases {
-        c = c.visible_alias(x.clone());
+    if let Some((f, rest)) = s.visible_aliases.split_first() {
+        c = c.visible_alias(f.clone());
+        if !rest.is_empty() {
+            c = c.visible_aliases(rest.iter().cloned());
+        }
     }
     if let Some(f) = s.short_flag {
         c = c.short_flag(f);
@@ -595,11 +635,17 @@ pub fn build(s: &CmdSpec) -> Command {
     if let Some(f) = &s.long_flag {
         c = c.long_flag(f.clone());
     }
-    for x in &s.short_flag_aliases {
-        c = c.short_flag_alias(*x);
+    if let Some((f, rest)) = s.short_flag_aliases.split_first() {
+        c = c.short_flag_alias(*f);
+        if !rest.is_empty() {
+            c = c.short_flag_aliases(rest.iter().copied());
+        }
     }
-    for x in &s.long_flag_aliases {
-        c = c.long_flag_alias(x.clone());
+    if let Some((f, rest)) = s.long_flag_aliases.split_first() {
+        c = c.long_flag_alias(f.clone());
+        if !rest.is_empty() {
+            c = c.long_flag_aliases(rest.iter().cloned());
+        }
     }
     for x in &s.visible_short_flag_aliases {
         c = c.visible_short_flag_alias(*x);
@@ -709,11 +755,17 @@ fn build_rest(mut c: Command, s: &CmdSpec) -> Command {
     if let Some(u) = &s.override_usage {
         c = c.override_usage(u.clone());
     }
-    for a in &s.args {
-        c = c.arg(build_arg(a));
+    if let Some((f, rest)) = s.args.split_first() {
+        c = c.arg(build_arg(f));
+        if !rest.is_empty() {
+            c = c.args(rest.iter().map(build_arg));
+        }
     }
-    for g in &s.groups {
-        c = c.group(build_group(g));
+    if let Some((f, rest)) = s.groups.split_first() {
+        c = c.group(build_group(f));
+        if !rest.is_empty() {
+            c = c.groups(rest.iter().map(build_group));
+        }
     }
     if s.subs_deferred {
         assert!(s.subs.len() == 1 && s.subs[0] == deferred_leaf_spec(), "subs_deferred: the subcommands must be the fixed leaf");
@@ -722,8 +774,11 @@ fn build_rest(mut c: Command, s: &CmdSpec) -> Command {
         }
         c = c.defer(add_leaf);
     } else {
-        for sub in &s.subs {
-            c = c.subcommand(build(sub));
+        if let Some((f, rest)) = s.subs.split_first() {
+            c = c.subcommand(build(f));
+            if !rest.is_empty() {
+                c = c.subcommands(rest.iter().map(build));
+            }
         }
     }
     for id in &s.touch {
